@@ -94,6 +94,11 @@ pub const SITES: [(&str, &str, bool); 40] = [
     ("fb-arg-expression", "inst ( a := 1 + {} , b := TRUE ) ;", false),
 ];
 
+thread_local! {
+    /// when set, the use-site menu is cut to its first eight members
+    pub static FEW_SITES: std::cell::Cell<bool> = std::cell::Cell::new(false);
+}
+
 /// Generates one world. `site_cost`: cost of choosing a non-default use site.
 pub fn world(ch: &mut Chooser) -> World {
     let mut w = World::default();
@@ -238,7 +243,9 @@ pub fn world(ch: &mut Chooser) -> World {
     }
     // ---------------- use site
     let site_names: Vec<&str> = SITES.iter().map(|s| s.0).collect();
-    let site = ch.pick("site", &site_names, 0);
+    // (the deepest tier expands three deviations over the first eight sites only: the complete site menu times three
+    // deviations is tens of millions of worlds; two deviations over every site is the quick tier)
+    let site = if FEW_SITES.with(|f| f.get()) { ch.pick("site", &site_names[..8], 0) } else { ch.pick("site", &site_names, 0) };
     // names that something else declares (a function block, a function, a program, a type) are no variables
     // names that another declaration of the unit declares for itself (an input of Callee, the instance of Main, a value
     // of the enumeration's neighbour, a field of the structure) are not declared here
